@@ -194,7 +194,19 @@ def socket_path(ctx, res):
         fresh_plans.append(sorted(rng.sample(range(1, H + 30), rng.choice([1, 2, 3]))))
     tagged = [(False, p_) for p_ in plans] + [(True, cuts_) for cuts_ in fresh_plans]
     stream_greeted = stream
+    # … and a backlog of more than a thousand small frames waiting in the socket when the node gets to read it (one write, and
+    # two halves): however much one read returns, every frame is extracted
+    n_long = 1100
+    long_stream = b"".join(node.frame(MessageHeader(0, 1 + i, 0, 7), GetPeersMessage()) for i in range(n_long))
+    tagged += [("long", [len(long_stream)]), ("long", [len(long_stream) // 2, len(long_stream) - len(long_stream) // 2])]
     for fresh, plan in tagged:
+        n_frames = 110
+        if fresh == "long":
+            fresh, stream_greeted_, n_frames = False, long_stream, n_long
+            res.count("socket_path_backlog_of_1100_frames")
+        else:
+            stream_greeted_ = stream_greeted
+        stream_greeted, stream_saved = stream_greeted_, stream_greeted
         if fresh:
             stream = hello + stream_greeted
             L = len(stream)
@@ -216,7 +228,7 @@ def socket_path(ctx, res):
             other.sendall(stream[pos:pos + size])
             pos += size
             # read events for as long as the kernel reports the socket readable (what the event loop does)
-            for _guard in range(64):
+            for _guard in range(4096):
                 try:
                     key = rn.lp.selector.get_key(peer.sock)
                 except (KeyError, ValueError):
@@ -237,6 +249,7 @@ def socket_path(ctx, res):
                                            % (n_frames, plan, answered, "kept" if still and not dropped else "DROPPED"),
                                    "pieces": plan, "stream": stream.hex()})
         rn.close()
+        stream_greeted = stream_saved
     chain.unpatch()
 
 
